@@ -8,6 +8,9 @@ Scratch: /tmp/mut/{repo,harness,target,root} (removed at the end unless --keep).
 """
 import json, os, subprocess, sys, shutil, time, glob
 
+# an inherited CARGO_TARGET_DIR would override the scratch target-dir and leave a stale binary in place
+os.environ.pop("CARGO_TARGET_DIR", None)
+
 SCR = "/tmp/mut"
 REPO = f"{SCR}/repo"
 H = f"{SCR}/harness"
